@@ -197,9 +197,34 @@ def run(prop="C20", tier="quick"):
         raise AnalysisBroken("R-CXXALIAS no longer fires on its positive fixture (fix_bad)")
     if any("fix_good" in f.what for f in fxres["findings"]):
         raise AnalysisBroken("R-CXXALIAS fires on its negative fixture (fix_good)")
+    # ---- the operator functors (__gmp_binary_plus::eval (z, w, v) ...) are ordinary functions with an output and const
+    # inputs: the expression templates call them with the destination also as a source (Op::eval (p, l, p)), so they
+    # are held to the C layer's aliasing rules (aliasflow: R-CLOBBER / R-STALE)
+    import aliasflow
+    functors = [f for f in u["functions"] if f["name"] == "eval" and f.get("cls", "").startswith("__gmp_")
+                and "__gmp_expr" not in f.get("cls", "") and os.path.basename(f["file"]).endswith("mpirxx.h")]
+    for f in functors:
+        if not any(aliasflow.objkind(p.get("ct", "")) for p in f["params"]):
+            continue
+        found = []
+        a = aliasflow.Analysis(f, prop, found.append, res["stats"])
+        if not any(not v[2] for v in a.pinfo.values()):
+            continue
+        a.reset_reports = lambda found=found: found.clear()
+        a.run()
+        res["stats"]["functor_bodies"] += 1
+        for x in found:
+            if x.rule in ("R-CLOBBER", "R-STALE"):
+                x.rule = "R-CXXALIAS"
+                x.function = "%s::eval" % f.get("cls", "")[:60]
+                x.signature = "functor:%s:%s" % (f.get("cls", "")[:50], x.signature)
+                x.what = "in %s::eval (mpirxx.h:%d): %s" % (f.get("cls", "")[:60], x.line, x.what)
+                res["findings"].append(x)
+    if res["stats"]["functor_bodies"] < 60:
+        raise AnalysisBroken("R-CXXALIAS: only %d operator-functor bodies analysed (floor 60)" % res["stats"]["functor_bodies"])
     res["stats"]["partial_specialisations"] = len(partials)
     res["stats"] = dict(res["stats"])
-    res["obligations"] = res["stats"].get("events", 0)
+    res["obligations"] = res["stats"].get("events", 0) + res["stats"].get("input_reads", 0) + res["stats"].get("limb_pointer_uses", 0)
     res["samples"].append(dict(rule="R-CXXALIAS", eval_bodies=res["stats"].get("eval_bodies"), partial_specialisations=len(partials),
                                example=evals[0].get("cls", "")[:160] if evals else ""))
     res["notes"].append("fixtures: 1 positive fired, 1 negative silent; all %d partial specialisations covered" % len(partials))
